@@ -1,6 +1,8 @@
 //! CLI harness: C05 (on-busy policy), C08 (quit), C12 (explicit filters vs ignore flags).
 
 mod c05;
+mod c08;
+mod c12;
 
 use dex::{
 	explore::{Bounds, Exec, Point},
@@ -31,6 +33,30 @@ impl Harness for C05 {
 	}
 }
 
+struct C08;
+
+impl Harness for C08 {
+	type Sc = c08::Sc;
+	fn name(&self) -> &'static str {
+		"h-cli/quit"
+	}
+	fn property(&self) -> &str {
+		"C08"
+	}
+	fn scenarios(&self, tier: Tier) -> Vec<(c08::Sc, Vec<Bounds>)> {
+		c08::scenarios(tier)
+	}
+	fn run(&self, sc: &c08::Sc, bounds: Bounds, prefix: &[Point]) -> Result<Exec<Obs>, String> {
+		c08::run(sc, bounds, prefix)
+	}
+	fn replay_every(&self, tier: Tier) -> u64 {
+		match tier {
+			Tier::Quick => 256,
+			Tier::Thorough => 4096,
+		}
+	}
+}
+
 fn main() {
 	let argv: Vec<String> = std::env::args().skip(1).collect();
 	let args = orch::parse_args(&argv);
@@ -51,6 +77,37 @@ fn main() {
 				return;
 			}
 			let rule = "every mode / option variant x every ENV order of change events, command exits and ticks, times every SELECT/SCHED/PREEMPT deviation set within the pass bound (FIFO and LIFO base policies, anchored windows in the thorough tier); non-trivial = at least one run was started; distinct = distinct observation logs";
+			let c = orch::dex_main(&h, &args, &[prop], assumptions, rule);
+			let _ = std::fs::remove_dir_all(c05::scratch_dir());
+			c
+		}
+		"C12" => {
+			if let Some(path) = &args.replay {
+				let v: orch::ViolationRec = match std::fs::read_to_string(path).ok().and_then(|s| serde_json::from_str(&s).ok()) {
+					Some(v) => v,
+					None => {
+						eprintln!("cannot read replay file {}", path.display());
+						std::process::exit(2);
+					}
+				};
+				let c = c12::replay(&v.scenario);
+				if c == 1 {
+					println!("VIOLATION property=C12 replay={}", path.display());
+				} else {
+					println!("replay: no violation");
+				}
+				c
+			} else {
+				c12::run(args.tier, args.seed)
+			}
+		}
+		"C08" => {
+			let h = C08;
+			if args.rest.get(1).map(String::as_str) == Some("--count") {
+				println!("{} scenarios", h.scenarios(args.tier).len());
+				return;
+			}
+			let rule = "every job state class (and every pair of classes at the default schedule) x quit manner x grace x child reaction x (quit in the creating action | later), and the CLI's handler under interrupt/terminate events; every ENV order of quit trigger, child exits and ticks, times every deviation set within the pass bound; non-trivial = at least one process was started; distinct = distinct canonical observation logs";
 			let c = orch::dex_main(&h, &args, &[prop], assumptions, rule);
 			let _ = std::fs::remove_dir_all(c05::scratch_dir());
 			c
